@@ -40,6 +40,7 @@ def cases(tier, seed):
                 if c["alg"]["kind"] in ("queue", "batch") else c)
                for sc, c in out]
     out += common.add_algs(common.park_scope(lvl), common.park_algs)
+    out += common.add_algs(common.park2_scope(lvl), common.park_algs)
     out += common.add_algs(common.offgrid_scope(lvl), common.park_algs)
     return common.rotate(out, seed)
 
